@@ -3,6 +3,7 @@ package c16
 
 import (
 	"fmt"
+	"github.com/cedar-policy/cedar-go/verif/c15"
 	"strings"
 	"time"
 
@@ -248,6 +249,33 @@ func commonTypeNamespaceFamily() *core.Family {
 	}
 }
 
+// (e) typechecker totality: every policy of C15's policy space (all operator forms over
+// typed leaves, well- and ill-typed) plus three-element set literals over entity-type
+// unions, record unions and scalars: Validator.Policy returns in both modes.
+func typecheckerFamily() *core.Family {
+	const chunk = 256
+	n := (c15.TotalityN() + chunk - 1) / chunk
+	return &core.Family{
+		Name: "typechecker-totality",
+		Desc: fmt.Sprintf("%d policies over the C15 schema: every unary / binary operator form over typed leaves (existing, optional and missing attributes, literals and extension values of every type) and every 3-element set literal over 17 operands (entities of three types, if-then-else unions of two and three entity types, record unions, scalars, variables) inside contains / == / in; Validator.Policy returns in strict and permissive mode (no panic)", c15.TotalityN()),
+		N:    n,
+		Run: func(t *core.T, i int64) {
+			vs, vp, err := c15.TotalityValidators()
+			if err != nil {
+				t.Fail("harness-schema", "C15 schema", "resolves", err.Error())
+				return
+			}
+			for k := i * chunk; k < (i+1)*chunk && k < c15.TotalityN(); k++ {
+				desc, p := c15.TotalityPolicy(k)
+				t.Protect("typechecker:Policy:strict", desc, func() { _ = vs.Policy("p", p) })
+				t.Protect("typechecker:Policy:permissive", desc, func() { _ = vp.Policy("p", p) })
+			}
+			t.AddStates(chunk)
+			t.Nontrivial()
+		},
+	}
+}
+
 // (c) action-group digraphs over 3 actions: 2^9
 func actionFamily() *core.Family {
 	return &core.Family{
@@ -430,7 +458,7 @@ func Check() *core.Check {
 			"a case is non-trivial if the schema resolved (so the validation battery ran)",
 		Assumptions: []string{"pairs of dimensions are not combined (one dimension at a time)", "a nil type inside a programmatically built schema AST is outside the domain (no decoder produces one)"},
 		Families: func(tier string) []*core.Family {
-			return []*core.Family{referenceFamily(), hierarchyFamily(), commonTypeFamily(), commonTypeNamespaceFamily(), actionFamily()}
+			return []*core.Family{referenceFamily(), hierarchyFamily(), commonTypeFamily(), commonTypeNamespaceFamily(), actionFamily(), typecheckerFamily()}
 		},
 	}
 }
